@@ -108,6 +108,21 @@ func verifCheckMap(res Object, exp []keyValuePair, label string) {
 	got := m.mapElements()
 	verifSameElements(got, exp, label)
 	vAssert(m.Len() == len(exp), label+"/len")
+	// the package-level functions the evaluator goes through (len, rest, slicing, iteration) accept the result
+	vAssert(Len(res) == len(exp), label+"/package-level-len")
+	vAssert(len(Elements(res)) == len(exp), label+"/package-level-elements")
+	if len(exp) > 1 {
+		if rm, isMap := Rest(res).(Map); isMap {
+			vAssert(rm.Len() == len(exp)-1, label+"/package-level-rest-length")
+		} else {
+			vAssert(false, label+"/package-level-rest-is-not-a-map")
+		}
+	}
+	if rg, isMap := Range(res, 0, int64(len(exp))).(Map); isMap {
+		vAssert(rg.Len() == len(exp), label+"/package-level-range-length")
+	} else {
+		vAssert(false, label+"/package-level-range-is-not-a-map")
+	}
 	for i := 1; i < len(got); i++ {
 		vAssert(Cmp(got[i-1].Key, got[i].Key) < 0, label+"/sorted-unique")
 	}
